@@ -18,6 +18,7 @@ class Ctx:
         self.floors = {}           # rule -> (found, floor)
         self.assumptions = []
         self.rules_text = {}
+        self.extra = {}
 
     # -- recording
     def rule(self, rid, text):
@@ -67,8 +68,9 @@ class Ctx:
         os.makedirs(os.path.join(VERIF, 'evidence'), exist_ok=True)
         for i, v in enumerate(real):
             rp = os.path.join('reports', f'{self.prop}-{i}.json')
-            with open(os.path.join(VERIF, rp), 'w') as fh:
-                json.dump(v, fh, indent=1)
+            if not os.environ.get('LM_NO_EVIDENCE'):
+                with open(os.path.join(VERIF, rp), 'w') as fh:
+                    json.dump(v, fh, indent=1)
             out_lines.append(f"  rule={v['rule']} fn={v['fn']} at {v['span']}\n    construct: {v['construct']}\n    why: {v['why']}")
             out_lines.append(f"VIOLATION property={self.prop} replay={rp}")
         n_ob = len(self.obligations)
@@ -117,8 +119,10 @@ class Ctx:
             'wall_s': round(time.time() - self.t0, 3),
             'violations': len(real),
         }
-        with open(os.path.join(VERIF, 'evidence', f'{self.prop}.json'), 'w') as fh:
-            json.dump(ev, fh, indent=1)
+        ev['coverage'].update(self.extra)
+        if not os.environ.get('LM_NO_EVIDENCE'):
+            with open(os.path.join(VERIF, 'evidence', f'{self.prop}.json'), 'w') as fh:
+                json.dump(ev, fh, indent=1)
         for l in out_lines:
             print(l)
         print(f"[{self.prop}] tier={self.tier} rule-instances={n_ob} discharged={n_dis} violations={len(real)} "
